@@ -5,6 +5,7 @@
   the exported structure against the code's answers and the specification.
 -/
 import CSD.Model.RPFCStore
+import CSD.Model.RPFCImage
 import CSD.Driver.Util
 
 namespace CSD.Driver
@@ -72,6 +73,28 @@ def checkRpfc (strsHex qHex pHex t mc el ml bk bs rules hdr st loc abs pre ext :
   if modAbs != implAbs.map some then "V model-locate-differs-from-code-on-a-query" else
   if modLoc != (S.map fun s => some (Spec.locate S s)) then "V model-locate-differs-from-spec" else
   if modAbs != (Q.map fun q => some (Spec.locate S q)) then "V model-locate-differs-from-spec-on-a-query" else
+  let extParts := ext.splitOn ";"
+  let ext := extParts.headD "-"
+  let imgHex := (extParts.drop 1).headD ""
+  -- the saved image: parsed by the model loader, re-serialised by the model writer, and turned by the model
+  -- (positional index, NUL-terminated headers, `bitsrp`-wide fields) into the very object exported above
+  let imgVerdict : String :=
+    if imgHex == "" then "" else
+    let bytes := unhex imgHex
+    match RPFCImg.load 214 (bytes ++ [0x55, 0xaa]) with
+    | none => "V model-loader-refuses-the-image"
+    | some (im, rest) =>
+      if rest != [0x55, 0xaa] then "V loader-does-not-consume-exactly-the-image" else
+      if RPFCImg.save 214 im != bytes then "V model-save-differs-from-the-image" else
+      match RPFCImg.toD im with
+      | none => "V image-fields-unreadable"
+      | some d' =>
+        if d'.headers != d.headers then "V headers-cut-from-the-image-differ" else
+        if d'.streams != d.streams then "V symbols-unpacked-from-the-image-differ" else
+        if d'.g.rules != d.g.rules || d'.g.terminals != d.g.terminals || d'.maxchar != d.maxchar then "V grammar-in-the-image-differs" else
+        if d'.elements != d.elements || d'.maxlength != d.maxlength || d'.buckets != d.buckets || d'.bucketsize != d.bucketsize then
+          "V counters-in-the-image-differ" else ""
+  if imgVerdict != "" then imgVerdict else
   let exts := if ext == "-" then [] else ext.splitOn ","
   let implExt : List (Option Str) := exts.map fun e => if e == "N" then none else some (unhex (e.drop 1).toString)
   let modExt := (List.range (S.length + 2)).map (extract d)
